@@ -396,7 +396,20 @@ def call_inst(op):
     return subst_row(op["i"], op["targs"]), subst_row(op["o"], op["targs"]), op.get("reqs", [])
 
 
+def as_custom(op):
+    """Definition-backed extension op AST -> the Custom op it stands for.  `via`: "direct" =
+    ExtOp(def, signature, args) (signature used as given); "instantiate" = OpDef.instantiate (adds
+    the defining extension to the requirements); "mono" = no cached signature, the definition's
+    monomorphic scheme (to which add_op_def added the defining extension)."""
+    reqs = list(op.get("reqs", []))
+    if op["via"] in ("instantiate", "mono") and op["ext"] not in reqs:
+        reqs.append(op["ext"])
+    return {"k": "Custom", "ext": op["ext"], "name": op["name"], "i": op["i"], "o": op["o"], "reqs": reqs, "desc": op.get("desc", ""), "args": op.get("args", [])}
+
+
 def enc_op(op, parent=0):
+    if op["k"] == "ExtOp":
+        op = as_custom(op)
     k = op["k"]
     base = {"parent": parent}
     if k == "Module":
@@ -475,6 +488,8 @@ def ref_sig(op):
       inner         : (ins, outs) of the child dataflow graph or None
       nth           : for Conditional: case i inputs; for DataflowBlock: successor i row
     """
+    if op["k"] == "ExtOp":
+        op = as_custom(op)
     k = op["k"]
     r = {"ins": None, "outs": None, "static_in": None, "static_out": None, "order": False, "order_in": False, "order_out": False, "cf_in": 0, "cf_out": 0, "inner": None, "nth": None}
 
@@ -640,6 +655,8 @@ def general_value(v):
 def general_op(op):
     """Decoder-side form of an op AST: sugar tags as Tag, extension ops as
     Custom, extension types opaque."""
+    if op["k"] == "ExtOp":
+        op = as_custom(op)
     k = op["k"]
     if k in ("SomeTag", "LeftTag", "RightTag", "Continue", "Break"):
         tag, rows, _ = op_tag_rows(op)
